@@ -2325,6 +2325,9 @@ def splitMultipleSubst(oldSubTable, newSubTable, overflowRecord):
         # doesn't overflow.
         newLen = overflowRecord.itemIndex - 1
 
+    if newLen <= 0 or newLen >= oldLen:
+        # nothing would be left in one of the halves: splitting makes no progress
+        return False
     newSubTable.mapping = {}
     for i in range(newLen, oldLen):
         item = oldMapping[i]
@@ -2354,6 +2357,9 @@ def splitAlternateSubst(oldSubTable, newSubTable, overflowRecord):
         # to the Coverage table doesn't overflow.
         newLen = overflowRecord.itemIndex - 1
 
+    if newLen <= 0 or newLen >= oldLen:
+        # nothing would be left in one of the halves: splitting makes no progress
+        return False
     newSubTable.alternates = {}
     for i in range(newLen, oldLen):
         item = oldAlts[i]
@@ -2380,6 +2386,9 @@ def splitLigatureSubst(oldSubTable, newSubTable, overflowRecord):
         # to the Coverage table doesn't overflow.
         newLen = overflowRecord.itemIndex - 1
 
+    if newLen <= 0 or newLen >= oldLen:
+        # nothing would be left in one of the halves: splitting makes no progress
+        return False
     newSubTable.ligatures = {}
     for i in range(newLen, oldLen):
         item = oldLigs[i]
